@@ -85,7 +85,7 @@ def run(ctx):
     ctx.sample_trace(parts[0], 16)
 
     # E4 + E3 ---------------------------------------------------------------------------------
-    n = 2500 if thorough else 300
+    n = 2500 if thorough else 150
     parts, execs = [], 0
     for name, exe, payload in builds:
         for pct in (0, 3):
